@@ -278,12 +278,12 @@ pub fn run(rep: &Report) {
     rep.set_exhaustive(true);
     rep.add_extra("matrix_argument_shapes", json!(per));
     rep.add_extra("matrix_bound", json!("arity 0..2 over the full pool, arity 3 over the 24-value small pool"));
-    let n_random = rep.tier.pick(1_000_000u64, 20_000_000);
+    let n_random = rep.tier.pick(1_000_000u64, 60_000_000);
     common::random_search(rep, "random", 10, n_random, &arb_family_case, &|(name, arg): &(String, RV), l| {
         l.sample(2, || json!({"call": format!("{}(x)", name), "x": arg.to_string()}));
         check_call(name, arg, unit, None, l)
     });
-    let n_ls = rep.tier.pick(300_000u64, 4_000_000);
+    let n_ls = rep.tier.pick(300_000u64, 12_000_000);
     common::random_search(
         rep,
         "len-substring",
